@@ -42,7 +42,7 @@ inductive Status where
   deriving DecidableEq
 
 /-- keep the bottom `h` entries of a stack whose top is first. -/
-def truncate (stack : List Frame) (h : Nat) : List Frame := stack.drop (stack.length - h)
+def truncStack (stack : List Frame) (h : Nat) : List Frame := stack.drop (stack.length - h)
 
 /-- rewrite the group end markers of the clause body the cut is in, and its body end marker, into
     commits (`commitBody` marks the body end of a clause in which a cut already ran). -/
@@ -88,10 +88,10 @@ def step (fo : FloatOps) (kb : KB) (c : Config) : Config × Status :=
     match m with
     | .endGroup => ({ c with cur := some (k, σ) }, .running)
     | .endBody => ({ c with cur := some (k, σ) }, .running)
-    | .commit h => ({ c with cur := some (k, σ), stack := truncate c.stack h }, .running)
-    | .commitBody h => ({ c with cur := some (k, σ), stack := truncate c.stack h }, .running)
-    | .notFail h => ({ c with cur := none, stack := truncate c.stack h }, .running)
-    | .timeDone h => (emit { c with cur := some (k, σ), stack := truncate c.stack h } "<elapsed>", .running)
+    | .commit h => ({ c with cur := some (k, σ), stack := truncStack c.stack h }, .running)
+    | .commitBody h => ({ c with cur := some (k, σ), stack := truncStack c.stack h }, .running)
+    | .notFail h => ({ c with cur := none, stack := truncStack c.stack h }, .running)
+    | .timeDone h => (emit { c with cur := some (k, σ), stack := truncStack c.stack h } "<elapsed>", .running)
     | .goal g bar =>
       match g with
       | .call t =>
@@ -103,7 +103,7 @@ def step (fo : FloatOps) (kb : KB) (c : Config) : Config × Status :=
         | _ => (c, .panic)
       | .bip name args =>
         if name = "!" then
-          ({ c with cur := some (commitMarkers bar k, σ), stack := truncate c.stack bar }, .running)
+          ({ c with cur := some (commitMarkers bar k, σ), stack := truncStack c.stack bar }, .running)
         else
           match runBip fo FUEL name (optList args) σ with
           | .ok r =>
